@@ -1010,8 +1010,14 @@ class TextXVisitor(RRELVisitor):
             cls_attr.ref = True
             # Override rhs by its PEG rule for further processing
             rhs_rule = rhs_rule[1]
-            # store RREL related information
-            cls_attr.scope_provider = rhs_rule.scope_provider
+            # store RREL related information (the RREL belongs to the
+            # attribute: another assignment to the same attribute written
+            # without RREL does not erase it)
+            if (
+                rhs_rule.scope_provider is not None
+                or getattr(cls_attr, "scope_provider", None) is None
+            ):
+                cls_attr.scope_provider = rhs_rule.scope_provider
             cls_attr.match_rule_name = rhs_rule.rule_name
             # Target class is not the same as target rule
             target_cls = rhs_rule.cls
